@@ -80,22 +80,3 @@ fn vk_c07_canary_bitboard() {
     let got = s.bb().in_direction(d).as_u64();
     assert!(got != 0); // must FAIL: edge squares step off the board
 }
-
-// One-shot contract form of `for s in <Bitboard>` (justified by C07.bitboard.square_iterator) used by the
-// init-body obligations: every iterator yields ONE arbitrary member of its bitboard and then None; the ghost array
-// records what the k-th executed loop yielded.
-pub static mut ONE_SHOT_CALLS: usize = 0;
-pub static mut ONE_SHOT_YIELDED: [Square; 4] = [Square::from_index(0); 4];
-pub fn one_shot_square_next(it: &mut SquareIterator) -> Option<Square> {
-    if it.0.is_empty() {
-        return None;
-    }
-    let s = geo::any_square();
-    kani::assume(it.0.contains(s));
-    unsafe {
-        ONE_SHOT_YIELDED[ONE_SHOT_CALLS] = s;
-        ONE_SHOT_CALLS += 1;
-    }
-    it.0 = Bitboard::EMPTY;
-    Some(s)
-}
